@@ -17,6 +17,7 @@
 package types
 
 import (
+	"encoding/json"
 	"fmt"
 	"sort"
 )
@@ -43,15 +44,15 @@ func (s SSHKey) MarshalYAML() (interface{}, error) {
 	if s.Path == "" {
 		return s.ID, nil
 	}
-	return fmt.Sprintf("%s: %s", s.ID, s.Path), nil
+	return fmt.Sprintf("%s=%s", s.ID, s.Path), nil
 }
 
 // MarshalJSON makes SSHKey implement json.Marshaller
 func (s SSHKey) MarshalJSON() ([]byte, error) {
 	if s.Path == "" {
-		return []byte(fmt.Sprintf(`%q`, s.ID)), nil
+		return json.Marshal(s.ID)
 	}
-	return []byte(fmt.Sprintf(`%q: %s`, s.ID, s.Path)), nil
+	return json.Marshal(fmt.Sprintf("%s=%s", s.ID, s.Path))
 }
 
 func (s *SSHConfig) DecodeMapstructure(value interface{}) error {
